@@ -115,3 +115,79 @@ Section Verdict.
       + exact Hl.
   Qed.
 End Verdict.
+
+(* ---- the boolean well-formedness of SpecWf.v (the one evaluated per specification) is [well_formed] ---- *)
+Section Boolean.
+  Variable predefs : list (string * string).
+
+  Lemma unknown_predefs_nil_iff ds :
+    unknown_predefs predefs ds = [] <-> (forall e, In e (declared predefs ds) -> snd e <> None).
+  Proof.
+    unfold unknown_predefs, declared. split.
+    - intros H [n o] Hin Ho. simpl in Ho. subst o. apply in_flat_map in Hin as [d [Hd Hin]].
+      destruct d as [n0 k v|a hs|A b]; simpl in Hin; try destruct Hin.
+      destruct k as [|[|k]]; simpl in Hin.
+      + destruct Hin as [Hin|[]]; discriminate.
+      + destruct Hin as [Hin|[]]; discriminate.
+      + destruct (find (fun e => String.eqb (fst e) v) predefs) as [p|] eqn:Ef; [destruct Hin as [Hin|[]]; discriminate|].
+        assert (X : In v (flat_map (fun d => match d with
+                       | DToken _ (S (S _)) v => match find (fun e => String.eqb (fst e) v) predefs with Some _ => [] | None => [v] end
+                       | _ => [] end) ds)).
+        { apply in_flat_map. exists (DToken n0 (S (S k)) v). split; [exact Hd|]. rewrite Ef. left. reflexivity. }
+        rewrite H in X. destruct X.
+    - intros H. apply flat_map_nil_all. intros d Hd. destruct d as [n k v|a hs|A b]; try reflexivity.
+      destruct k as [|[|k]]; try reflexivity.
+      destruct (find (fun e => String.eqb (fst e) v) predefs) as [p|] eqn:Ef; [reflexivity|]. exfalso.
+      apply (H (n, None)); [|reflexivity]. apply in_flat_map. exists (DToken n (S (S k)) v). split; [exact Hd|]. simpl. rewrite Ef. left. reflexivity.
+  Qed.
+
+  Lemma in_names_iff ds a :
+    In a (names predefs ds) <-> (exists o, In (a, o) (declared predefs ds)) \/ (exists lit, In (a, lit) (used_terms ds)).
+  Proof.
+    unfold names. rewrite nodup_In, in_app_iff, !in_map_iff. split.
+    - intros [[[n o] [E H]]|[[n lit] [E H]]]; simpl in E; subst n; [left; exists o | right; exists lit]; exact H.
+    - intros [[o H]|[lit H]]; [left; exists (a, o) | right; exists (a, lit)]; split; try reflexivity; exact H.
+  Qed.
+
+  Lemma names_are_the_table ds :
+    unknown_predefs predefs ds = [] -> forall a, In a (names predefs ds) <-> in_table predefs ds a.
+  Proof.
+    intros Hu a. rewrite in_names_iff. unfold in_table. split.
+    - intros [[o H]|H]; [|right; exact H]. destruct o as [d|]; [left; exists d; exact H|].
+      exfalso. apply (proj1 (unknown_predefs_nil_iff ds) Hu (a, None) H). reflexivity.
+    - intros [[d H]|H]; [left; exists (Some d); exact H | right; exact H].
+  Qed.
+
+  Theorem wf_spec_is_well_formed nu ds :
+    wf_spec predefs nu ds = true <-> well_formed predefs ds /\ levels_overlap (directive_levels nu ds) = false.
+  Proof.
+    unfold wf_spec, well_formed. rewrite !andb_true_iff, negb_true_iff. split.
+    - intros [[[[[W1 W2] W3] W4] W5] W6].
+      assert (Hu : unknown_predefs predefs ds = []).
+      { apply unknown_predefs_nil_iff. intros e He Hn. rewrite forallb_forall in W2. specialize (W2 e He). rewrite Hn in W2. discriminate. }
+      pose proof (names_are_the_table ds Hu) as Hnames. rewrite forallb_forall in W1, W3, W5.
+      split; [|exact W6]. repeat split.
+      + intros a Ha. apply Hnames in Ha. specialize (W1 a Ha). apply Nat.eqb_eq in W1.
+        destruct (defs_of predefs ds a) as [|d [|d' t]]; simpl in W1; try discriminate. exists d. reflexivity.
+      + exact Hu.
+      + intros a b v r1 r2 Hab Ha Hb Da Db. apply Hnames in Ha. apply Hnames in Hb. specialize (W3 a Ha).
+        rewrite forallb_forall in W3. specialize (W3 b Hb). destruct (String.eqb a b) eqn:E.
+        * apply String.eqb_eq in E. exact (Hab E).
+        * rewrite Da, Db, String.eqb_refl in W3. discriminate.
+      + apply existsb_exists in W4 as [A [HA E]]. apply String.eqb_eq in E. subst A. exact HA.
+      + intros A HA. specialize (W5 A HA). apply existsb_exists in W5 as [B [HB E]]. apply String.eqb_eq in E. subst B. exact HB.
+    - intros [(P1 & P2 & P3 & P4 & P5) W6]. pose proof (names_are_the_table ds P2) as Hnames.
+      repeat split; try exact W6.
+      + apply forallb_forall. intros a Ha. apply Hnames in Ha. destruct (P1 a Ha) as [d Hd]. rewrite Hd. reflexivity.
+      + apply forallb_forall. intros [n o] He. destruct o as [d|]; [reflexivity|]. exfalso.
+        apply (proj1 (unknown_predefs_nil_iff ds) P2 (n, None) He). reflexivity.
+      + apply forallb_forall. intros a Ha. apply forallb_forall. intros b Hb. destruct (String.eqb a b) eqn:E; [reflexivity|].
+        apply Hnames in Ha. apply Hnames in Hb.
+        destruct (defs_of predefs ds a) as [|[v r1] [|x t]] eqn:Da; try reflexivity.
+        destruct (defs_of predefs ds b) as [|[w r2] [|y u]] eqn:Db; try reflexivity.
+        destruct (String.eqb v w) eqn:Evw; [|reflexivity]. exfalso. apply String.eqb_eq in Evw. subst w.
+        apply (P3 a b v r1 r2); try assumption. intros Hab. subst b. rewrite String.eqb_refl in E. discriminate.
+      + apply existsb_exists. exists "start"%string. split; [exact P4 | reflexivity].
+      + apply forallb_forall. intros A HA. apply existsb_exists. exists A. split; [apply P5; exact HA | apply String.eqb_refl].
+  Qed.
+End Boolean.
